@@ -120,7 +120,7 @@ def main(tier):
         for ver in (1, 2, 3):
             pth = os.path.join(sdir, "syn%d" % ver)
             seeds.append(("synthetic-v%d" % ver, tzif.write_tzif(pth, [1000, 2000, 3000, 4000], [0, 1, 0, 1], [0, 3600], version=ver)))
-        vals = [0, 1, 2, 255, 256, 65536, 2 ** 31 - 1, 2 ** 32 - 1]
+        vals = [0, 1, 2, 255, 256, 65536, 2 ** 31 - 1, 2 ** 32 - 1, 0xfffffff0, 0xfffffffc, 0x3fffffff, 0x40000000, 0x20000000, 0x15555556, 0x0ccccccd]
         for name, data in seeds:
             step = 1 if len(data) < 1500 or not quick else 7
             for n in list(range(0, min(len(data), 400))) + list(range(400, len(data) + 1, step)):
@@ -221,7 +221,11 @@ def main(tier):
                 for n in range(0, len(data) + 1):
                     fm.case(data[:n], "map %s truncated to %d" % (keys, n), fq)
                 for off in range(4, len(data), 4):
-                    for v in (0, 0xffffffff, 0x00ffff00, 0x41414141, len(data), 1):
+                    # boundary values of 32-bit offset arithmetic: zero, all ones, just below 2^32 (a header size added to it wraps), the
+                    # sign bit, the file length and its neighbours
+                    for v in (0, 0xffffffff, 0x00ffff00, 0x41414141, len(data), 1, 0xfffffff0, 0xfffffff4, 0xfffffff8, 0xfffffffc, 0xffffffef,
+                              0x80000000, 0x7fffffff, len(data) - 16, len(data) - 15, len(data) - 17, len(data) + 16):
+                        v &= 0xffffffff
                         fm.case(data[:off] + struct.pack(">I", v) + data[off + 4:], "map %s word@%d := %#x" % (keys, off, v), fq)
         # the shipped maps: every key of the source is found
         for nm in ("iata", "icao", "mic"):
